@@ -47,6 +47,13 @@ def make_requests(seed, tier, tag):
                 s2, lab = gen.mutate(rng, s, long_ok=False)
                 if gen.must_fail(p, s2) is None and gen.cost_units(s2, L) <= BUDGET:
                     out.append(("maybe", m, p, s2))
+        # refusals by the method itself, after the generic validation passed
+        for s3 in {"sha256crypt": [b"$5$rounds=999$saltsalt", b"$5$rounds=0$salt", b"$5$rounds=1000000000$salt"],
+                   "sha512crypt": [b"$6$rounds=999$saltsalt", b"$6$rounds=05000$salt"],
+                   "bcrypt": [b"$2b$03$abcdefghijklmnopqrstuu", b"$2b$05$abcdefghijklmnopqrst-u"],
+                   "sunmd5": [b"$md5,rounds=0x5$salt$", b"$md5,round=5$salt$"], "sha1crypt": [b"$sha1$12$salt-salt$"],
+                   "scrypt": [b"$7$/..../....abcdefgh"], "yescrypt": [b"$y$j.T$abcdefgh"]}.get(m, []):
+            out.append(("maybe", m, rand_phrase(rng, rng.choice([20, 40, 100])), s3))
         # validation failures
         s, _ = gen.gen_valid(rng, m)
         out.append(("validation", m, rand_phrase(rng, 40), s[:1] + b"\x7f" + s[1:]))
@@ -68,7 +75,7 @@ def judge_object(acc, flavour, req, r, ln, setup):
                           flavour, kind, s if s is None else s[:100], None if p is None else len(p), detail,
                           {k: r.get(k) for k in ("r", "e", "iz", "rz", "init", "iu", "ru", "nu", "ps", "sk", "mh", "ev")}),
                       rt.replay_obj(flavour, setup + [ln]))
-    passed = gen.must_fail(p, s) is None
+    passed = gen.must_fail(p, s) not in gen.GENERIC_REJECTS
     if r.get("iz", "-") == "-":
         return
     if passed:
@@ -133,7 +140,9 @@ def do_stack(args):
     fl = "o0"
     w = rt.vw(fl)
     rng = rt.rng_for(hseed, "stk")
-    setup = ["scan 1", "stack 1", "ledger 1", rt.obj_line(0, align=rng.randrange(16), fill="r", seed=9)]
+    # the phrase at an odd address in half of the histories (malloc'ed strings are always aligned)
+    setup = ["scan 1", "stack 1", "ledger 1", "palign %d" % rng.choice([0, 0, 1, 3, 5, 7]),
+             rt.obj_line(0, align=rng.randrange(16), fill="r", seed=9)]
     lines, meta = [], []
     for req in reqs:
         kind, m, p, s = req
